@@ -161,15 +161,33 @@ def observe_k(c):
     for i in range(c["m"]):
         prod[labels[3 + i % 3]] += 1
     us = sysgen.py_sys(U, c["units"])
-    def mk(q, dim):
+    def mk1(q, dim, text):
         if "bare" in q:
             return q["bare"]
+        if text:
+            return "%r %s" % (float(q["v"]), si.units_str(q["sys"], dim))
         return U.UnitValue(q["v"], U.Units(sysgen.py_sys(U, q["sys"]), U.UnitsDimensions(space=dim[0], time=dim[1], quantity=dim[2])))
+
+    def mk(q, dim):
+        """the same constant in the form the case asks for: an object, its text, or a per-environment dictionary of either"""
+        form = c.get("form", "object")
+        v = mk1(q, dim, "text" in form)
+        return {"a": v, "default": mk1(q, dim, False)} if "dict" in form else v
+
+    def entry(v):
+        return v["a"] if isinstance(v, dict) else v
     try:
-        r = strengths.Reaction([sub, prod], kf=mk(c["kf"], c["kf_dim"]), kr=mk(c["kr"], c["kr_dim"]), units_system=us)
+        if "setter" in c.get("form", ""):
+            r = strengths.Reaction([sub, prod], units_system=us)
+            r.kf = mk(c["kf"], c["kf_dim"])
+            r.kr = mk(c["kr"], c["kr_dim"])
+        else:
+            r = strengths.Reaction([sub, prod], kf=mk(c["kf"], c["kf_dim"]), kr=mk(c["kr"], c["kr_dim"]), units_system=us)
     except Exception as e:
         return {"raised": "%s: %s" % (type(e).__name__, str(e)[:60])}
+
     def q(v):
+        v = entry(v)
         return [float(v.value), si.sys_of(v.units.sys), si.dim_of(v.units.dim)]
     out["kf"], out["kr"] = q(r.kf), q(r.kr)
     rf, rr = r.split()
@@ -177,7 +195,13 @@ def observe_k(c):
     out["split_sto"] = [[int(v) for v in rf.dsto(labels)], [int(v) for v in rr.dsto(labels)], [int(v) for v in r.dsto(labels)]]
     out["split_units"] = [si.sys_of(rf.units_system), si.sys_of(rr.units_system)]
     try:
-        K = r.K
+        rk = r
+        if isinstance(r.kf, dict) or isinstance(r.kr, dict):
+            # the equilibrium constant is defined for single constants: taken from the reaction with this environment's entries
+            # (when they have the right dimension - otherwise the acceptance above is already the finding)
+            good = tuple(si.dim_of(entry(r.kf).units.dim)) == sysgen.kdim(c["n"]) and tuple(si.dim_of(entry(r.kr).units.dim)) == sysgen.kdim(c["m"])
+            rk = strengths.Reaction([sub, prod], kf=entry(r.kf), kr=entry(r.kr), units_system=us) if good else None
+        K = rk.K if rk is not None else None
         out["K"] = None if K is None else [float(K.value), si.sys_of(K.units.sys), si.dim_of(K.units.dim)]
     except Exception as e:
         out["K"] = "raised: %s" % type(e).__name__
@@ -200,7 +224,8 @@ def make_k_case(rng):
         return {"v": sysgen.rand_val(rng, zero=0.25), "sys": sysgen.rand_sys(rng, 0.2)}, dim
     kf, kfd = k(n)
     kr, krd = k(m)
-    return {"n": n, "m": m, "units": units, "kf": kf, "kf_dim": list(kfd), "kr": kr, "kr_dim": list(krd)}
+    form = rng.choice(["object", "object", "text", "dict_object", "dict_text", "setter_object", "setter_dict_object", "setter_text"])
+    return {"n": n, "m": m, "units": units, "kf": kf, "kf_dim": list(kfd), "kr": kr, "kr_dim": list(krd), "form": form}
 
 
 def oracle_k(it):
